@@ -310,7 +310,7 @@ class LayoutDomain:
         for x, y in zip(xa, xb):
             if x == y or y in ((), ("#1",)): out.append(x)
             elif x in ((), ("#1",)): out.append(y)
-            elif same_rows(x, y): out.append(x if unknownish(y) else y)
+            elif same_rows(x, y): out.append(x if unknownish(x) else y)       # an axis that was not followed stays unknown
             else:
                 self.report("pair", node, f"elementwise operation pairs axes enumerated differently: {a} with {b}")
                 out.append(x)
@@ -349,6 +349,8 @@ class LayoutDomain:
             if name in ("_position", "position"): return Arr(((self.PATH,), LIT(3)))
             if name in ("_orientation", "orientation"): return RotL((self.PATH,))
             if name in ("pixel", "_pixel"): return Arr((("Ps",), LIT(3)))
+            if name.startswith("_") and name not in ("_field_func_kwargs_ndim", "_field_func", "_parent", "_children", "_style"):
+                return Arr((("??attr",),))        # an array-valued private attribute this table does not know: unknown layout (never a claim)
             return U("attr")
         if isinstance(recv, Arr) and name == "T": return Arr(tuple(reversed(recv.axes)))
         return U("attr " + name)
@@ -446,6 +448,9 @@ class LayoutDomain:
         self.log("reshape", node)
         F = flat(arr.axes)
         # the concatenation of the sensors' pixel blocks may be re-split as (sensor, pixel of that sensor) when all blocks are alike
+        if any(x.startswith("??") for x in F):
+            # a factor of unknown *structure* (an array whose rank / composition was not followed): the result is unknown where it matters
+            return Arr([tuple(d) if d is not None else ("??",) for d in dims])
         want = [x for d in dims if d for x in d]
         if "P" in F and "P" not in want and "SENS" in want and "Ps" in want:
             k = F.index("P")
@@ -468,7 +473,8 @@ class LayoutDomain:
                 Fl = Fl[len(d):] if d else Fl
                 left.append(tuple(d) if d else ("#1",))
                 i += 1
-        if bad is not None and (unknownish(F) and unknownish(bad[1])):
+        if bad is not None and (unknownish(F) or any(unknownish(d) for d in dims if d)):
+            # a size or factor that was not followed takes part: nothing is claimed about this reshape
             return Arr([tuple(d) if d is not None else ("?",) for d in dims])
         if bad is not None:
             self.report("reshape", node, f"reshape of {arr} (row index enumerated as {'*'.join(F)}) into a dimension '{'*'.join(bad[1])}' at position {bad[0]}: "
@@ -595,7 +601,7 @@ class LayoutDomain:
                 if isinstance(el, Arr) and el.axes:
                     axes = list(el.axes)
                     kk = k % len(axes)
-                    axes[kk] = ("P",) if (a0.atom == "SENS" and axes[kk] == ("Ps",)) else ("Σ" + a0.atom + "." + "*".join(axes[kk]),)
+                    axes[kk] = ("P",) if (a0.atom == "SENS" and axes[kk] == ("Ps",)) else (("??Σ",) if unknownish(axes[kk]) else ("Σ" + a0.atom + "." + "*".join(axes[kk]),))
                     return Arr(axes)
             if isinstance(a0, Seq) and a0.items and all(isinstance(x, Arr) for x in a0.items):
                 axes = list(a0.items[0].axes)
@@ -645,7 +651,7 @@ class LayoutDomain:
         if base == "getattr" and isinstance(a0, Obj):
             n = args[1] if len(args) > 1 else None
             if isinstance(n, Const) and isinstance(n.value, str): return self.attr(a0, n.value, node)
-            return Arr((("?attr",),))
+            return Arr((("??attr",),))
         if base == "product":
             fs = []
             for x in args:
